@@ -111,8 +111,11 @@ def _int_only(h):
     while stack and n < 3000:
         x = stack.pop()
         n += 1
-        if z3.is_real(x) or z3.is_quantifier(x):
+        if z3.is_real(x):
             return False
+        if z3.is_quantifier(x):
+            stack.append(x.body())
+            continue
         stack.extend(x.children())
     return n < 3000
 
@@ -160,6 +163,9 @@ class Resolver:
         ch = [self(c) for c in t.children()]
         if k == z3.Z3_OP_SELECT:
             a, idx = ch
+            if z3.is_app(a) and a.decl().kind() == z3.Z3_OP_ITE:
+                c, x, y = a.children()
+                return self(z3.If(c, z3.Select(x, idx), z3.Select(y, idx)))
             while z3.is_app(a) and a.decl().kind() == z3.Z3_OP_STORE:
                 b, x, v = a.children()
                 if x.eq(idx) or self.entails(x == idx):
@@ -201,7 +207,7 @@ class Visit:
         self.flow = flow
         self.contribs = []                  # (key tuple, when)
         self.idx = {l.name: l.sym for l in levels}
-        self._res = None
+        self._res = {}
 
     @property
     def eng(self):
@@ -210,34 +216,39 @@ class Visit:
     def local(self, name):
         return self.eng.local(self.state, name)
 
-    def resolver(self):
-        if self._res is None:
-            self._res = Resolver(self.state.hyps())
-        return self._res
+    def resolver(self, assuming=()):
+        key = tuple(a.get_id() for a in assuming)
+        r = self._res.get(key)
+        if r is None:
+            r = self._res[key] = Resolver(self.state.hyps() + list(assuming))
+        return r
 
-    def resolve(self, t):
-        return z3.simplify(self.resolver()(t))
+    def resolve(self, t, assuming=()):
+        return z3.simplify(self.resolver(assuming)(t))
 
-    def delta(self, key, idx):
-        """accumulator'[idx] - accumulator[idx] with the select/store chains resolved"""
-        return self.resolve(z3.Select(self.post[key], idx) - z3.Select(self.pre[key], idx))
+    def delta(self, key, idx, assuming=()):
+        """accumulator'[idx] - accumulator[idx] with the select/store chains resolved (each rewrite solver-checked
+        against the integer hypotheses of the path plus `assuming`)"""
+        return self.resolve(z3.Select(self.post[key], idx) - z3.Select(self.pre[key], idx), assuming)
 
-    def prove(self, name, goal, kind="post", **meta):
-        ob = self.eng.oblige(self.state, self.acc.obname(self, name), goal, kind)
+    def prove(self, name, goal, assuming=(), kind="post", **meta):
+        ob = self.eng.oblige(self.state, self.acc.obname(self, name), goal, kind, extra_hyps=list(assuming))
         ob.meta.update(meta)
         return ob
 
-    def contrib(self, key, when=True):
-        """declare: on this path the body adds the spec term with this key (tuple of +-index symbols)"""
-        self.contribs.append((tuple(key), z3.BoolVal(True) if when is True else when))
+    def contrib(self, key, when=True, cls=None):
+        """declare: on this path the body adds the spec term with this key (tuple of +-index symbols); `cls` separates
+        different families of terms that share a key space (e.g. direct and Jacobi terms)"""
+        self.contribs.append((tuple(key), z3.BoolVal(True) if when is True else when, cls))
 
     def unchanged(self, key, name="unchanged"):
         return self.prove(name + "." + self.acc.keyname(key), self.post[key] == self.pre[key])
 
 
 class Nest:
-    def __init__(self, name, levels, visit, pre=None, entry=None):
+    def __init__(self, name, levels, visit, pre=None, entry=None, outer=None, after=None):
         self.name, self.levels, self.visit, self.pre, self.entry = name, list(levels), visit, pre, entry
+        self.outer, self.after = outer, after
         self.visits = []
 
 
@@ -259,10 +270,12 @@ class Accum:
         av, leaf = key
         return "%s.%s" % (av.obj.name, ".".join(str(x) for x in leaf))
 
-    def obname(self, visit, name):
-        t = self.v.task.name
+    def relname(self, visit, name):
         p = ".p%d" % visit.path if visit.path else ""
-        return "%s.%s%s.%s" % (t, visit.nest.name, p, name)
+        return "%s%s.%s" % (visit.nest.name, p, name)
+
+    def obname(self, visit, name):
+        return "%s.%s" % (self.v.task.name, self.relname(visit, name))
 
     def key(self, av, *leaf):
         for (a, l) in self.accs:
@@ -271,9 +284,14 @@ class Accum:
         raise KeyError(leaf)
 
     # ---- registration
-    def nest(self, name, levels, visit, pre=None, entry=None):
-        """levels: loop ordinals from the outermost accumulation level to the innermost loop (whose body is the BODY)."""
-        n = Nest(name, levels, visit, pre, entry)
+    def nest(self, name, levels, visit, pre=None, entry=None, outer=None, after=None):
+        """levels: loop ordinals from the outermost accumulation level to the innermost loop (whose body is the BODY).
+        outer(st) -> [(name, symbol, [guards])]: index symbols of enclosing loops that are verified with a true inductive
+        invariant (engine rule) instead of this rule; the guards (range of the symbol) are proved to hold at the entry of
+        the nest (`.outer.<name>.guard`), the pack proves separately that the enclosing loop sweeps that whole range.
+        after(): called when the nest has been processed (to state the iteration-space obligations when the enclosing
+        invariant loop ends the path after the body)."""
+        n = Nest(name, levels, visit, pre, entry, outer, after)
         self.nests.append(n)
         eng = self.v.eng
         for o in levels[:-1]:
@@ -391,7 +409,7 @@ class Accum:
                 fl = eng.exec_stmt(s, body)
                 if fl.kind not in (Flow.NORMAL, Flow.CONTINUE):
                     raise Unsupported("accum: break/return/goto leaves the loop at line %s on a feasible path" % node.get("_line"))
-                self._frame_check(eng, st, s.log, node, "%s.frame.%s%d" % (self.v.task.name, name, ordinal))
+                self._frame_check(eng, st, s.log, node, "frame.%s%d" % (name, ordinal))
                 if saved_log is not None:
                     saved_log |= s.log
             else:
@@ -404,9 +422,17 @@ class Accum:
 
     def _inner(self, eng, st, s, node, body, nest, saved_log):
         header = list(s.pc[self.base:])
+        levels = list(self.stack)
+        if nest.outer is not None:
+            pseudo = []
+            for (oname, osym, oguards) in nest.outer(st):
+                for gi, g in enumerate(oguards):
+                    eng.oblige(st, "%s.%s.outer.%s.guard%d" % (self.v.task.name, nest.name, oname, gi), g, "loop", node)
+                header = list(oguards) + header
+                pseudo.append(Level(-1, oname, osym, None, None, None))
+            levels = pseudo + levels
         self.havoc(s, "acc0")
         pre = self._acc_arrays(s)
-        levels = list(self.stack)
         if nest.pre is not None:
             nest.pre(Visit(self, nest, levels, s, header, pre, pre, 0, None))
         saved = (eng.decisions, eng.dpos, eng.nofork)
@@ -449,7 +475,7 @@ class Accum:
                 post = self._acc_arrays(s2)
                 vis = Visit(self, nest, levels, s2, header + rec, pre, post, npath, fl.kind)
                 npath += 1
-                self._frame_check(eng, st, s2.log, node, self.obname(vis, "frame.writes"))
+                self._frame_check(eng, st, s2.log, node, self.relname(vis, "frame.writes"))
                 if saved_log is not None:
                     saved_log |= s2.log
                 nest.visit(vis)
@@ -458,6 +484,8 @@ class Accum:
                     raise Unsupported("accum: too many body paths")
         finally:
             eng.decisions, eng.dpos, eng.nofork = saved
+        if nest.after is not None:
+            nest.after()
 
     # ---- iteration space
     def _substitution(self, vis, key, kvars):
@@ -480,25 +508,27 @@ class Accum:
             sub.append((hit[0], kv if hit[1] == 1 else -kv))
         return sub
 
-    def visit_conditions(self, kvars, nests=None):
+    def visit_conditions(self, kvars, nests=None, cls=None):
         """[(label, condition over kvars)]: one per declared contribution: 'this contribution has key kvars'"""
         out = []
         for n in self.nests:
             if nests is not None and n.name not in nests:
                 continue
             for vis in n.visits:
-                for ci, (key, when) in enumerate(vis.contribs):
+                for ci, (key, when, kcls) in enumerate(vis.contribs):
+                    if kcls != cls:
+                        continue
                     sub = self._substitution(vis, key, kvars)
                     cnd = z3.substitute(z3.And(*(vis.guards + [when])), *sub)
                     out.append(("%s.p%d.c%d" % (n.name, vis.path, ci), cnd))
         return out
 
-    def iterspace(self, name, kvars, spec, hyps=(), nests=None):
+    def iterspace(self, name, kvars, spec, hyps=(), nests=None, cls=None):
         """Two closed LIA obligations over the free key variables (and the symbolic configuration):
         visited => specified (per contribution), specified => visited exactly once; plus not specified => never visited
         (which is the first one, restated as a count)."""
         v = self.v
-        conds = self.visit_conditions(kvars, nests)
+        conds = self.visit_conditions(kvars, nests, cls)
         hyps = list(hyps)
         for lab, c in conds:
             v.lemma("%s.visited_is_specified.%s" % (name, lab), hyps, z3.Implies(c, spec))
